@@ -77,6 +77,12 @@ Definition effective (k : nat) : list (N * tstate) :=
                  else map (fun kv => (fst kv, c_state (snd kv))) (reported k)
   | None => map (fun kv => (fst kv, c_state (snd kv))) (reported k)
   end.
+(* what the coordinator asked the shard to hold (whether or not the POST arrived) *)
+Definition intended (k : nat) : list (N * tstate) :=
+  match post_at k with
+  | Some body => map (fun t => (pt_hash t, pt_state t)) body
+  | None => map (fun kv => (fst kv, c_state (snd kv))) (reported k)
+  end.
 Definition holds_after (k : nat) (h : N) : bool := existsb (fun x => N.eqb (fst x) h) (effective k).
 Definition all_k : list nat := seq 0 nshards.
 Definition valid_opts : bool := negb (max_proc o =? 0).
@@ -183,9 +189,9 @@ Definition c05_ok : bool :=
       match filter (fun k => negb (Nat.eqb k k') && amem h (reported k)) all_k with
       | [k] => negb (insync k) ||
                (tstate_eqb (pt_state t) Normal &&
-                existsb (fun x => N.eqb (fst x) h && tstate_eqb (snd x) InTransfer) (effective k))
+                existsb (fun x => N.eqb (fst x) h && tstate_eqb (snd x) InTransfer) (intended k))
       | _ => true
-      end) (if sh_post_ok (shard_at k') then newly k' else [])) all_k).
+      end) (newly k')) all_k).
 
 (* C07 *)
 Definition given_target (k : nat) : bool := match newly k with [] => false | _ => true end.
@@ -212,8 +218,11 @@ Definition pending_eligible : bool :=
     | Some c => health_eqb (c_health c) Good && fits_alone c
     | None => false
     end) (i_active i).
+(* what a sidecar can report: idle-since is set only while nothing is assigned (C10) *)
+Definition consistent_idle : bool :=
+  forallb (fun k => match si_idle (info_at k), reported k with Some _, _ :: _ => false | _, _ => true end) all_k.
 Definition c07_used_ok : bool :=
-  ob_panic ob || (max_shard o <? min_shard o) || (max_shard o <? Z.of_nat nshards) ||
+  ob_panic ob || (max_shard o <? min_shard o) || (max_shard o <? Z.of_nat nshards) || negb consistent_idle ||
   (forallb (fun r => last_in_use <=? r) (ob_scales ob) &&
    ((negb ((max_idle o =? 0) || pending_eligible)) || forallb (fun r => Z.of_nat nshards <=? r) (ob_scales ob))).
 End Vocab.
